@@ -51,10 +51,11 @@ func guarded(fn func() ([]byte, error)) (rr renderResult) {
 }
 
 // renderResolvable drives resolve.Resolvable directly: Init with the merged subgraph data, Resolve.
-func renderResolvable(root *resolve.Object, payload []byte) renderResult {
+func renderResolvable(root *resolve.Object, payload []byte, o *renderOpts) renderResult {
 	return guarded(func() ([]byte, error) {
 		ctx := resolve.NewContext(context.Background())
-		r := resolve.NewResolvable(nil, resolve.ResolvableOptions{})
+		o.applyCtx(ctx)
+		r := resolve.NewResolvable(nil, o.resolvable())
 		if err := r.Init(ctx, payload, ast.OperationTypeQuery); err != nil {
 			return nil, fmt.Errorf("init: %w", err)
 		}
@@ -88,13 +89,34 @@ func sharedResolver() *resolve.Resolver {
 	return theResolver
 }
 
-func renderResolver(root *resolve.Object, payload []byte) renderResult {
+// subgraphBody wraps the payload into the subgraph's response; with options the subgraph may also
+// send extensions and errors.
+func subgraphBody(payload []byte, o *renderOpts) []byte {
+	body := append([]byte(`{"data":`), payload...)
+	if o != nil && o.BodyErrors != "" {
+		body = append(append(body, `,"errors":`...), o.BodyErrors...)
+	}
+	if o != nil && o.BodyExtensions != "" {
+		body = append(append(body, `,"extensions":`...), o.BodyExtensions...)
+	}
+	return append(body, '}')
+}
+
+// newOptionResolver builds a Resolver for one resolver-level option set; cancel stops its goroutines.
+func newOptionResolver(ro *resolverOpts) (*resolve.Resolver, context.CancelFunc) {
+	ctx, cancel := context.WithCancel(context.Background())
+	return resolve.New(ctx, ro.options(64)), cancel
+}
+
+func renderResolver(rs *resolve.Resolver, root *resolve.Object, payload []byte, o *renderOpts) renderResult {
 	return guarded(func() ([]byte, error) {
-		body := append(append([]byte(`{"data":`), payload...), '}')
+		body := subgraphBody(payload, o)
 		resp := &resolve.GraphQLResponse{
 			Data: root,
 			Info: &resolve.GraphQLResponseInfo{OperationType: ast.OperationTypeQuery},
 			Fetches: resolve.Single(&resolve.SingleFetch{
+				// a JSON fetch input as the planner would render it (tracing redacts / annotates the input)
+				InputTemplate: resolve.InputTemplate{Segments: []resolve.TemplateSegment{{SegmentType: resolve.StaticSegmentType, Data: []byte(`{"method":"POST","url":"http://ds/","body":{"query":"{q}"}}`)}}},
 				FetchConfiguration: resolve.FetchConfiguration{
 					DataSource:     &staticSource{data: body},
 					PostProcessing: resolve.PostProcessingConfiguration{SelectResponseDataPath: []string{"data"}, SelectResponseErrorsPath: []string{"errors"}},
@@ -103,8 +125,9 @@ func renderResolver(root *resolve.Object, payload []byte) renderResult {
 			}),
 		}
 		ctx := resolve.NewContext(context.Background())
+		o.applyCtx(ctx)
 		out := &bytes.Buffer{}
-		_, err := sharedResolver().ResolveGraphQLResponse(ctx, resp, nil, out)
+		_, err := rs.ResolveGraphQLResponse(ctx, resp, nil, out)
 		return out.Bytes(), err
 	})
 }
@@ -114,6 +137,7 @@ func renderResolver(root *resolve.Object, payload []byte) renderResult {
 type payloadTransport struct {
 	mu      sync.Mutex
 	payload []byte
+	body    []byte
 	calls   int
 	lastReq string
 }
@@ -126,7 +150,7 @@ func (t *payloadTransport) RoundTrip(req *http.Request) (*http.Response, error) 
 		b, _ := io.ReadAll(req.Body)
 		t.lastReq = string(b)
 	}
-	body := append(append([]byte(`{"data":`), t.payload...), '}')
+	body := t.body
 	return &http.Response{StatusCode: 200, Body: io.NopCloser(bytes.NewReader(body)), Header: http.Header{"Content-Type": []string{"application/json"}}, Request: req}, nil
 }
 
@@ -137,7 +161,7 @@ type engineRig struct {
 	cancel context.CancelFunc
 }
 
-func newEngineRig(s *schema) (*engineRig, error) {
+func newEngineRig(s *schema, ro *resolverOpts) (*engineRig, error) {
 	sdl := s.sdl()
 	ctx, cancel := context.WithCancel(context.Background())
 	tr := &payloadTransport{}
@@ -189,7 +213,7 @@ func newEngineRig(s *schema) (*engineRig, error) {
 	conf := engine.NewConfiguration(gs)
 	conf.SetDataSources([]plan.DataSource{ds})
 	conf.VerifPlannerConfiguration().CustomResolveMap = map[string]resolve.CustomResolve{"CR": theCustomResolve}
-	eng, err := engine.NewExecutionEngine(ctx, abstractlogger.Noop{}, conf, resolve.ResolverOptions{MaxConcurrency: 16, PropagateSubgraphErrors: true, PropagateSubgraphStatusCodes: true})
+	eng, err := engine.NewExecutionEngine(ctx, abstractlogger.Noop{}, conf, ro.options(16))
 	if err != nil {
 		cancel()
 		return nil, err
@@ -228,13 +252,18 @@ func (e *engineRig) realTree(query string) (*resolve.Object, error) {
 	return sp.Response.Data, nil
 }
 
-func (e *engineRig) execute(query string, payload []byte) renderResult {
+func (e *engineRig) execute(query string, payload []byte, o *renderOpts) renderResult {
 	return guarded(func() ([]byte, error) {
 		e.tr.mu.Lock()
 		e.tr.payload = payload
+		e.tr.body = subgraphBody(payload, o)
 		e.tr.mu.Unlock()
 		w := graphql.NewEngineResultWriter()
-		err := e.eng.Execute(context.Background(), &graphql.Request{Query: query}, &w)
+		var opts []engine.ExecutionOptions
+		if o != nil {
+			opts = append(opts, engine.VerifWithResolveContext(o.applyCtx))
+		}
+		err := e.eng.Execute(context.Background(), &graphql.Request{Query: query}, &w, opts...)
 		return append([]byte(nil), w.Bytes()...), err
 	})
 }
